@@ -290,8 +290,8 @@ def main():
     base += F.f_rule_chains(ops, depth=2)
     base += F.f_mem((2,), deltas=[0, 1, 32])[:: (2 if tier == "quick" else 1)]
     base += F.f_exh(2 if tier == "quick" else 3)
-    base += F.f_rule_singles(ops, contexts=("both", "bothstore"))[:: (6 if tier == "quick" else 1)]
-    base += F.f_rule_pairs(sorted(set(pairs) | {(b, a) for a, b in pairs}), consts=[0, 1], contexts=("both",))[:: (12 if tier == "quick" else 2)]
+    base += F.f_rule_singles(ops, contexts=("both", "bothstore"))[:: (12 if tier == "quick" else 1)]
+    base += F.f_rule_pairs(sorted(set(pairs) | {(b, a) for a, b in pairs}), consts=[0, 1], contexts=("both",))[:: (24 if tier == "quick" else 2)]
     base = F.f_two_segments() + base           # first: every option set takes a stride of the list
     if tier == "thorough":
         both = sorted(set(pairs) | {(b, a) for a, b in pairs})
@@ -302,7 +302,7 @@ def main():
     mem_pairs = F.f_mem_mutant_pairs(deltas=(0, 1, 32), length=2)
     mem_pairs += F.f_mem_move_pairs(deltas=(0, 8, 40), length=3, n_stores=(1, 2))
     # a store moved across a hash of an overlapping / disjoint range (the checker's KECCAK branch of the dependency comparison)
-    mem_pairs += F.f_mem_move_pairs(deltas=(0, 8, 40), length=3, load_ops=("KECCAK256",), n_stores=(1, 2))[:: (2 if tier == "quick" else 1)]
+    mem_pairs += F.f_mem_move_pairs(deltas=(0, 8, 40), length=3, load_ops=("KECCAK256",), n_stores=(1, 2))[:: (4 if tier == "quick" else 1)]
     if tier == "thorough":
         mem_pairs += F.f_mem_mutant_pairs(deltas=(0, 16), ops=("MSTORE", "MSTORE8", "SSTORE"), length=3)
         mem_pairs += F.f_mem_move_pairs(deltas=(0, 8, 16, 40), length=4)
